@@ -63,8 +63,11 @@ class Ctx:
         self.violations.append({"key": key, "rule": rule, "instance": instance, "where": where,
                                 "detail": detail, "configs": [self.config]})
 
-    def floor(self, rule, found, floor):
-        """Fail closed when a rule saw fewer instances than were counted by hand."""
+    def floor(self, rule, found, floor, MIN=None):
+        """Fail closed when a rule saw fewer instances than were counted by hand.
+        `MIN` = the hand-counted floor for the no-default-features configuration when it differs."""
+        if self.config == "MIN" and MIN is not None:
+            floor = MIN
         self.rule_counts[f"{rule}@{self.config}"] = {"found": found, "floor": floor}
         if found < floor:
             self.violation(rule + ".floor", f"instances<{floor}", "",
